@@ -38,9 +38,18 @@ def cases(rng, tier):
     for i in range(2 if tier == "quick" else 40):
         cfg = dict(rng.choice(shardprop.CFGS)); cfg["wildcard_replay"] = False
         cap = cfg["fill_factor"] * cfg["event_per_zone"]
-        ops = [("S", 0, 0) for _ in range(cap)]
-        ops += [("PARK", "fw_begin")] + [("SN", 0, 0) for _ in range(cap)] + [("WAITP", "fw_begin")]
-        ops += [("SN", 0, 0) for _ in range(cap)] + [("OP", "fw_begin"), ("OP", "fw_begin")]
+        if i % 2 == 0:
+            # rotation 0 flushed before the backlog builds up
+            ops = [("S", 0, 0) for _ in range(cap)]
+            ops += [("PARK", "fw_begin")] + [("SN", 0, 0) for _ in range(cap)] + [("WAITHITS", "fw_begin", 2)]
+            ops += [("SN", 0, 0) for _ in range(cap)] + [("OP", "fw_begin"), ("OP", "fw_begin")]
+        else:
+            # two rotations pending, only the OLDER one is allowed to finish (its passive copy is released and
+            # stays in the set as an empty slot), then a third rotation while the second is still pending
+            ops = [("PARK", "fw_begin")] + [("SN", 0, 0) for _ in range(cap)] + [("WAITHITS", "fw_begin", 1)]
+            ops += [("SN", 0, 0) for _ in range(cap)]
+            ops += [("RELEASE", "fw_begin"), ("PARK", "fw_begin"), ("WAITHITS", "fw_begin", 2)]
+            ops += [("SN", 0, 0) for _ in range(cap)] + [("OP", "fw_begin"), ("OP", "fw_begin")]
         ops += [("RELEASE", "fw_begin"), ("SETTLE",), ("O",)]
         out.append(shardprop.mk_case("passive-backlog", cfg, 1, 1, ops))
     # (b) large memtables (more than 20 events per flush) with two event types: the flusher's regrouping by
